@@ -89,11 +89,11 @@ def run(ctx):
     if okm and good:
         imports = cc.IMPORTS.replace("Model.CodecEq ", "Model.CodecEq Model.CodecWf Model.CodecWfAll ")
         okw, idxw, wlog = ctx.eval_cases(imports, "ty * val", ["(%s, %s)" % (ob["ty"], ob["val"]) for ob in good],
-                                         "  grid (snd c) && noempty (snd c) && rwf reg (fst c) (snd c)", shard=80, name="HypCases")
+                                         "  noempty (snd c) && rwf reg (fst c) (snd c)", shard=80, name="HypCases")
         if okw:
             hyp_n = len(good) - len(idxw)
-            hyp_out = [good[i] for i in idxw if not off_grid_time(good[i]["val"]) and EMPTY_BODY not in good[i]["val"]]
-            ctx.log("%d of %d decoded values satisfy grid && noempty (hypotheses of C03_partial_stable) and rwf; %d outside beyond the two refuted classes"
+            hyp_out = [good[i] for i in idxw if EMPTY_BODY not in good[i]["val"]]
+            ctx.log("%d of %d decoded values satisfy noempty (hypothesis of C03_partial_stable) and rwf; %d outside beyond the refuted class"
                     % (hyp_n, len(good), len(hyp_out)))
             if hyp_out:
                 detail["decoded_values_outside_hypotheses"] = [{"ty": o["ty"], "hex": o.get("hex", "")[:200], "val": o["val"][:400]} for o in hyp_out[:4]]
